@@ -326,6 +326,8 @@ def run_invariance(c, rec):
                 l = D.Gamma(c["a_l"], c["b_l"], name="l")
                 x = D.Gaussian(np.zeros(n), cov=lambda d: 1.0 / d, name="x")
                 y = D.Gaussian(model(x), cov=lambda l: 1.0 / l, name="y")
+                if c["interface"] == "Gibbs":  # the legacy sampler takes its start values from an attribute of the densities
+                    x.init_point, d.init_point, l.init_point = x0.copy(), np.array([d0]), np.array([l0])
                 J = D.JointDistribution(y, x, d, l)(y=y0)
                 if c["interface"] == "HybridGibbs":
                     E = cuqi.experimental.mcmc
@@ -336,7 +338,6 @@ def run_invariance(c, rec):
                     x1, d1, l1 = np.asarray(cur["x"], dtype=float).reshape(-1), float(np.asarray(cur["d"]).reshape(-1)[0]), float(np.asarray(cur["l"]).reshape(-1)[0])
                 else:
                     L = cuqi.sampler
-                    x.init_point, d.init_point, l.init_point = x0.copy(), np.array([d0]), np.array([l0])
                     G = L.Gibbs(J, {"x": lambda t: L.LinearRTO(t, maxit=50, tol=1e-12), ("d", "l"): L.Conjugate})
                     S = G.sample(c["sweeps"])
                     x1, d1, l1 = S["x"].samples[:, -1], float(S["d"].samples[0, -1]), float(S["l"].samples[0, -1])
